@@ -79,8 +79,8 @@ def judge(stream: list[dict], batch_size: int, flt: dict | None) -> tuple[str, d
     return "held", None, info
 
 
-def judge_sequenced(stream: list[dict], batch_size: int, flt: dict | None
-                    ) -> tuple[str, dict | None, dict]:
+def judge_sequenced(stream: list[dict], batch_size: int, flt: dict | None,
+                    collect_first: bool = False) -> tuple[str, dict | None, dict]:
     """The same stream consumed by the real sequencer (sequence_otel_job_id_streams), on
     stores that may hold disconnected traces: every connected trace group must come out as
     exactly one PV job holding exactly its spans; a disconnected group is skipped and must
@@ -116,7 +116,12 @@ def judge_sequenced(stream: list[dict], batch_size: int, flt: dict | None
         store.ingest(holder, stream)
         for name, traces in holder.stream_data({k: set(v) for k, v in flt.items()} if flt
                                                else None):
-            for job in sequence_otel_job_id_streams(traces):
+            jobs_iter = sequence_otel_job_id_streams(traces)
+            if collect_first:
+                # the per-trace generators may be collected first and read afterwards (the
+                # materialisation step gives every trace its own event map)
+                jobs_iter = list(jobs_iter)
+            for job in jobs_iter:
                 evs = list(job)
                 if not evs:
                     continue
@@ -144,7 +149,7 @@ def judge_sequenced(stream: list[dict], batch_size: int, flt: dict | None
 
 
 def gen_case(rng: random.Random) -> tuple[list[dict], int, dict | None, dict]:
-    names = rng.sample(["a", "b", "c d", "e"], rng.randint(1, 4))
+    names = rng.sample(["a", "b", "c d", "e", "A", "Orders", "orders"], rng.randint(1, 5))
     st = store.gen_store(rng, rng.randint(1, 12), names, ["A", "B", "C"], 12, hostile=False)
     order = rng.choice(["by-trace", "interleaved", "reversed", "shuffled", "shuffled"])
     stream = store.flatten(st, rng, order)
@@ -218,7 +223,7 @@ def run_chunk(case: dict) -> dict:
         if idx % 3 == 0:
             # second observation point: the real consumer, on a store that may hold broken
             # traces (state before cleaning)
-            names = rng.sample(["a", "b", "c d"], rng.randint(1, 3))
+            names = rng.sample(["a", "b", "c d", "B"], rng.randint(1, 4))
             st2 = store.gen_store(rng, rng.randint(2, 10), names, ["A", "B", "C"], 6,
                                   hostile=True)
             for t2 in st2["traces"]:
@@ -228,7 +233,9 @@ def run_chunk(case: dict) -> dict:
                     sp["job_name"] = t2["name"]
             stream2 = store.flatten(st2, rng, rng.choice(["by-trace", "shuffled"]))
             b2 = rng.choice([1, 2, 3, 1000])
-            v2, d2, info2 = judge_sequenced(stream2, b2, None)
+            collect = rng.random() < 0.5
+            v2, d2, info2 = judge_sequenced(stream2, b2, None, collect)
+            bump("sequenced_collect_then_read" if collect else "sequenced_read_in_order")
             n += 1
             bump("sequenced:" + v2.split(":")[0])
             bump("sequenced_jobs", info2.get("sequenced_jobs", 0))
@@ -239,7 +246,8 @@ def run_chunk(case: dict) -> dict:
                                        for s in stream2], b2, "seq"]))
             if v2.startswith("violated") and len(fails) < 4:
                 fails.append({"symptom": v2[9:], "detail": d2, "stream": stream2,
-                              "batch_size": b2, "filter": None, "meta": {"sequenced": True}})
+                              "batch_size": b2, "filter": None,
+                              "meta": {"sequenced": True, "collect_first": collect}})
         if not samples and meta["traces"] in (3, 4) and eff:
             samples.append({"batch_size": b, "filter": eff, "order": meta["order"],
                             "spans": [[s["job_name"], s["job_id"], s["event_id"],
@@ -292,7 +300,8 @@ def main(tier: str, seed: int) -> int:
 
 def run_replay(case: dict) -> dict:
     if case.get("meta", {}).get("sequenced"):
-        v, d, info = judge_sequenced(case["stream"], case["batch_size"], case["filter"])
+        v, d, info = judge_sequenced(case["stream"], case["batch_size"], case["filter"],
+                                     case["meta"].get("collect_first", False))
         return {"status": "ok", "verdict": v, "detail": d}
     v, d, info = judge(case["stream"], case["batch_size"], case["filter"])
     return {"status": "ok", "verdict": v, "detail": d}
